@@ -11,11 +11,12 @@ def run(rep, tier, seed):
     rep.assumptions += [
         "top clause (update_args, symbolic child of any class): a child whose tag the class does not define leaves the accumulator unchanged in all four components, warns exactly once and is not entered",
         "fold lemma (List, checked by lean on every run): folding a step function that is the identity on skipped elements over a list equals folding it over the list with those elements removed - so insertions at any position, in any number, do not change the conversion",
-        "groom: drops exactly the children whose tag contains '.', on a deep copy (contracts.groom)",
+        "groom / ungroom (base, MFINFO, STOCKINFO, MAIL): proved over an ownership-tracked element model for 0..3 direct children (4 thorough) with symbolic tags - drops exactly the children whose tag contains '.', renames the keyword tag on the first direct child only, writes nothing the caller owns (contracts.frames); the same on real element trees over an enumerated scope (contracts.groom, bounded)",
     ]
     run_contracts(rep, "contracts.aggregate", tier, seed)
     run_contracts(rep, "contracts.aggregate_native", tier, seed)      # bounded companions on real classes / trees
     run_contracts(rep, "contracts.groom", tier, seed)
+    run_contracts(rep, "contracts.frames", tier, seed)
     from props.lean import run_lean
     run_lean(rep, "Fold.lean")
     replay_known_findings(rep)
